@@ -358,7 +358,7 @@ mod vk_vec {
 
     // the same operations seen at the level of the std atomics (every atomic operation on the counter is logged, whatever
     // AtomicCounter method -- existing or new -- performed it)
-    // @harness name=vec_ops_std props=C01,C04,C05,C06,C09,C10,C11,C17 kind=bounded bound="length <= 3; chunk size and every value read symbolic over the full usize domain"
+    // @harness name=vec_ops_std props=C01,C04,C05,C06,C09,C10,C11,C17,C16 kind=bounded bound="length <= 3; chunk size and every value read symbolic over the full usize domain"
     #[kani::proof]
     #[kani::unwind(18)]
     #[kani::stub(std::sync::atomic::Atomic::<usize>::fetch_add, a_faa)]
